@@ -30,7 +30,7 @@ func (nopSub) OnNext(notifications.Topic, notifications.Event) {}
 func (nopSub) OnClose(notifications.Topic)                     {}
 
 type ltOp struct {
-	kind    string // start | link | finish | clear
+	kind    string // start | link | finish | finisherr | clear
 	req     int
 	cid     int
 	present bool
@@ -115,6 +115,8 @@ func (s *c19) Build(w *World) {
 			kind := "finish"
 			if t.Chance(200) {
 				kind = "clear"
+			} else if t.Chance(250) {
+				kind = "finisherr" // the response is ended with a failure / cancelled status
 			}
 			s.ops = append(s.ops, ltOp{kind: kind, req: active[j]})
 			active = append(active[:j], active[j+1:]...)
@@ -228,12 +230,20 @@ func (s *c19) exec(w *World, i int) {
 		if st != want {
 			s.viol = &Violation{Property: "C19", Rule: "R2", Signature: "completeness-status", Detail: fmt.Sprintf("FinishRequest reported %d, want %d (missing link seen: %v); %s", st, want, s.missing[op.req], where)}
 		}
+	case "finisherr":
+		code := []graphsync.ResponseStatusCode{graphsync.RequestCancelled, graphsync.RequestFailedUnknown, graphsync.RequestFailedContentNotFound}[op.req%3]
+		_ = s.streams[op.req].Transaction(func(rb responseassembler.ResponseBuilder) error {
+			rb.FinishWithError(code)
+			return nil
+		})
+		s.finished[op.req] = true
+		w.Effect("op %d finish-with-error r%d %d", i, op.req, code)
 	case "clear":
 		s.streams[op.req].ClearRequest()
 		s.finished[op.req] = true
 		w.Effect("op %d clear r%d", i, op.req)
 	}
-	if (op.kind == "finish" || op.kind == "clear") && s.viol == nil {
+	if (op.kind == "finish" || op.kind == "clear" || op.kind == "finisherr") && s.viol == nil {
 		s.viol = s.checkTrackerState(where)
 	}
 }
